@@ -660,6 +660,9 @@ func genCandidates(vars []lvar, terms []term) []cand {
 			// constant over the loop): one-sided pair relations are almost always noise
 			for _, sgn := range []int64{1, -1} {
 				sgn := sgn
+				if sgn == 1 && (vars[i].lenVar || vars[j].lenVar) {
+					continue
+				}
 				add(fmt.Sprintf("%s%+d*%s == init", ni, sgn, nj), func(d *disjunct, cur, init func(int) *lin.Lin) ([]lin.Ineq, bool) {
 					ci, cj, ii, ij := cur(i), cur(j), init(i), init(j)
 					if ci == nil || cj == nil || ii == nil || ij == nil {
@@ -670,6 +673,9 @@ func genCandidates(vars []lvar, terms []term) []cand {
 			}
 			for _, k := range []int64{4, 5} {
 				k := k
+				if vars[i].lenVar || vars[j].lenVar {
+					continue
+				}
 				for _, swap := range []bool{false, true} {
 					swap := swap
 					add(fmt.Sprintf("%s-%d*%s sw%v == init", ni, k, nj, swap), func(d *disjunct, cur, init func(int) *lin.Lin) ([]lin.Ineq, bool) {
@@ -685,6 +691,7 @@ func genCandidates(vars []lvar, terms []term) []cand {
 					})
 				}
 			}
+			stage = 2
 			for t := range terms {
 				t := t
 				add(fmt.Sprintf("%s+%s<=%s", ni, nj, terms[t].name), func(d *disjunct, cur, init func(int) *lin.Lin) ([]lin.Ineq, bool) {
